@@ -865,4 +865,188 @@ theorem dedupKeyRows_idem (K : TagSet) (l : List Row) :
   simp only [List.nil_append] at this
   rw [this]
 
+/-! ## stable sort by an arbitrary decidable total preorder -/
+section StablePreorder
+
+variable {α : Type} (r : α → α → Prop) [DecidableRel r]
+  (htot : ∀ a b, r a b ∨ r b a) (htr : ∀ a b c, r a b → r b c → r a c)
+
+include htot htr
+
+theorem pairwise_isortP (l : List α) : (l.insertionSort r).Pairwise r := by
+  have : Std.Total r := ⟨htot⟩
+  have : IsTrans α r := ⟨htr⟩
+  exact List.pairwise_insertionSort r l
+
+/-- stability: a stable sort does not change the subsequence of the elements equivalent to `c` -/
+theorem filter_class_isortP (c : α) (l : List α) :
+    (l.insertionSort r).filter (fun x => decide (r x c ∧ r c x)) = l.filter (fun x => decide (r x c ∧ r c x)) := by
+  have : Std.Total r := ⟨htot⟩
+  have : IsTrans α r := ⟨htr⟩
+  have hpw : (l.filter (fun x => decide (r x c ∧ r c x))).Pairwise r := by
+    apply List.pairwise_of_forall_mem_list
+    intro a ha b hb
+    have ha' := (List.mem_filter.mp ha).2
+    have hb' := (List.mem_filter.mp hb).2
+    simp only [decide_eq_true_eq] at ha' hb'
+    exact htr _ _ _ ha'.1 hb'.2
+  have hsub := (List.sublist_insertionSort hpw List.filter_sublist).filter (fun x => decide (r x c ∧ r c x))
+  rw [List.filter_filter] at hsub
+  simp only [Bool.and_self] at hsub
+  have hlen := ((List.perm_insertionSort r l).filter (fun x => decide (r x c ∧ r c x))).length_eq
+  exact (hsub.eq_of_length hlen.symm).symm
+
+omit htr in
+/-- a sorted list is determined by its equivalence classes -/
+theorem eq_of_pairwise_of_classesP : ∀ (l1 l2 : List α), l1.Pairwise r → l2.Pairwise r →
+    (∀ c, l1.filter (fun x => decide (r x c ∧ r c x)) = l2.filter (fun x => decide (r x c ∧ r c x))) → l1 = l2
+  | [], [], _, _, _ => rfl
+  | [], b :: l2, _, _, h => by
+      have hb : r b b := (htot b b).elim id id
+      have := h b; simp [hb] at this
+  | a :: l1, [], _, _, h => by
+      have ha : r a a := (htot a a).elim id id
+      have := h a; simp [ha] at this
+  | a :: l1, b :: l2, h1, h2, h => by
+    rw [List.pairwise_cons] at h1 h2
+    have raa : r a a := (htot a a).elim id id
+    have rbb : r b b := (htot b b).elim id id
+    have ha : a ∈ b :: l2 := by
+      have m : a ∈ (a :: l1).filter (fun x => decide (r x a ∧ r a x)) := by simp [raa]
+      rw [h a] at m; exact (List.mem_filter.mp m).1
+    have hb : b ∈ a :: l1 := by
+      have m : b ∈ (b :: l2).filter (fun x => decide (r x b ∧ r b x)) := by simp [rbb]
+      rw [← h b] at m; exact (List.mem_filter.mp m).1
+    have hab : r a b := by
+      rcases List.mem_cons.mp hb with e | e
+      · rw [e]; exact raa
+      · exact h1.1 b e
+    have hba : r b a := by
+      rcases List.mem_cons.mp ha with e | e
+      · rw [e]; exact rbb
+      · exact h2.1 a e
+    have hk := h a
+    simp only [List.filter_cons, raa, hba, hab, and_self, decide_true, if_true, List.cons.injEq] at hk
+    obtain ⟨rfl, _⟩ := hk
+    congr 1
+    apply eq_of_pairwise_of_classesP l1 l2 h1.2 h2.2
+    intro c
+    have := h c
+    by_cases hc : r a c ∧ r c a
+    · simpa [List.filter_cons, hc] using this
+    · simpa [List.filter_cons, hc] using this
+
+theorem isort_uniqueP {l l' : List α} (hp : l'.Pairwise r)
+    (hc : ∀ c, l'.filter (fun x => decide (r x c ∧ r c x)) = l.filter (fun x => decide (r x c ∧ r c x))) :
+    l' = l.insertionSort r :=
+  eq_of_pairwise_of_classesP r htot _ _ hp (pairwise_isortP r htot htr l)
+    (fun c => by rw [hc, filter_class_isortP r htot htr])
+
+theorem filter_isortP (p : α → Bool) (l : List α) :
+    (l.insertionSort r).filter p = (l.filter p).insertionSort r := by
+  apply isort_uniqueP r htot htr
+  · exact (pairwise_isortP r htot htr l).sublist List.filter_sublist
+  · intro c
+    rw [List.filter_comm, filter_class_isortP r htot htr, List.filter_comm]
+
+end StablePreorder
+
+/-! ## lexicographic comparison of key tuples; LSD radix sort -/
+
+theorem lexLe_total (asc : Bool) : ∀ (cs : List Callable) (r s : Row), lexLe asc cs r s ∨ lexLe asc cs s r
+  | [], _, _ => Or.inl trivial
+  | c :: cs, r, s => by
+    simp only [lexLe]
+    rcases lt_trichotomy (ckey asc c r) (ckey asc c s) with h | h | h
+    · exact Or.inl (Or.inl h)
+    · rcases lexLe_total asc cs r s with h' | h'
+      · exact Or.inl (Or.inr ⟨h, h'⟩)
+      · exact Or.inr (Or.inr ⟨h.symm, h'⟩)
+    · exact Or.inr (Or.inl h)
+
+theorem lexLe_trans (asc : Bool) : ∀ (cs : List Callable) (r s u : Row), lexLe asc cs r s → lexLe asc cs s u → lexLe asc cs r u
+  | [], _, _, _, _, _ => trivial
+  | c :: cs, r, s, u, h1, h2 => by
+    simp only [lexLe] at h1 h2 ⊢
+    rcases h1 with h1 | ⟨e1, h1⟩ <;> rcases h2 with h2 | ⟨e2, h2⟩
+    · exact Or.inl (lt_trans h1 h2)
+    · exact Or.inl (by omega)
+    · exact Or.inl (by omega)
+    · exact Or.inr ⟨by omega, lexLe_trans asc cs r s u h1 h2⟩
+
+/-- insertion sort only looks at the relation between members of the list -/
+theorem orderedInsert_congr {α : Type} (r r' : α → α → Prop) [DecidableRel r] [DecidableRel r'] (a : α) :
+    ∀ (l : List α), (∀ b ∈ l, r a b ↔ r' a b) → l.orderedInsert r a = l.orderedInsert r' a
+  | [], _ => rfl
+  | b :: l, h => by
+    have hb := h b (by simp)
+    by_cases hr : r a b
+    · simp [List.orderedInsert, hr, hb.mp hr]
+    · have hr' : ¬ r' a b := fun x => hr (hb.mpr x)
+      simp only [List.orderedInsert, hr, hr', if_false]
+      congr 1
+      exact orderedInsert_congr r r' a l (fun b' hb' => h b' (by simp [hb']))
+
+theorem insertionSort_congr {α : Type} (r r' : α → α → Prop) [DecidableRel r] [DecidableRel r'] :
+    ∀ (l : List α), (∀ a ∈ l, ∀ b ∈ l, r a b ↔ r' a b) → l.insertionSort r = l.insertionSort r'
+  | [], _ => rfl
+  | a :: l, h => by
+    rw [List.insertionSort_cons, List.insertionSort_cons]
+    have ih := insertionSort_congr r r' l (fun x hx y hy => h x (by simp [hx]) y (by simp [hy]))
+    rw [← ih]
+    apply orderedInsert_congr
+    intro b hb
+    have hb' : b ∈ l := (List.perm_insertionSort r l).subset hb
+    exact h a (by simp) b (by simp [hb'])
+
+theorem insertionSort_true {α : Type} (l : List α) : l.insertionSort (fun _ _ => True) = l := by
+  induction l with
+  | nil => rfl
+  | cons a l ih =>
+    rw [List.insertionSort_cons, ih]
+    cases l <;> simp [List.orderedInsert]
+
+/-- LSD radix sort: one stable sort by the tuple == stable passes from the last component to the first -/
+theorem sortcRows_eq_sortRows (asc : Bool) : ∀ (cs : List Callable) (ts : Terms),
+    List.Forall₂ (fun c t => den_x c t.1 ∧ t.2 = asc) cs ts → ∀ l : List Row, sortcRows cs asc l = sortRows ts l
+  | [], [], _, l => by
+    simp only [sortcRows, sortRows, List.foldr_nil]
+    have : (lexLe asc []) = (fun _ _ => True) := by funext r s; simp [lexLe]
+    have h := insertionSort_congr (lexLe asc []) (fun _ _ => True) l (fun a _ b _ => by simp [lexLe])
+    rw [h, insertionSort_true]
+  | c :: cs, t :: ts, h, l => by
+    rcases List.forall₂_cons.mp h with ⟨⟨hden, hdir⟩, hrest⟩
+    have ih := sortcRows_eq_sortRows asc cs ts hrest l
+    rw [sortRows_cons, ← ih]
+    -- the adjusted value of c is the integer key of the term t
+    have hkey : ∀ r, termKey t r = ckey asc c r := by
+      intro r
+      simp only [termKey, ckey, hdir, den_x] at *
+      rw [hden r]
+    simp only [sortcRows, sortPass]
+    apply isort_unique (termLe t) (termKey t) (termLe_iff t)
+    · -- sorted by the tuple implies sorted by its first component
+      have hp := pairwise_isortP (lexLe asc (c :: cs)) (lexLe_total asc (c :: cs)) (lexLe_trans asc (c :: cs)) l
+      refine hp.imp ?_
+      intro a b hab
+      rw [termLe_iff, hkey, hkey]
+      simp only [lexLe] at hab
+      rcases hab with h' | ⟨h', _⟩ <;> omega
+    · intro v
+      rw [filter_isortP (lexLe asc (c :: cs)) (lexLe_total asc (c :: cs)) (lexLe_trans asc (c :: cs)),
+          filter_isortP (lexLe asc cs) (lexLe_total asc cs) (lexLe_trans asc cs)]
+      apply insertionSort_congr
+      intro a ha b hb
+      have ha' := (List.mem_filter.mp ha).2
+      have hb' := (List.mem_filter.mp hb).2
+      simp only [decide_eq_true_eq] at ha' hb'
+      have e : ckey asc c a = ckey asc c b := by rw [← hkey, ← hkey, ha', hb']
+      simp only [lexLe, e, lt_irrefl, false_or, true_and]
+
+theorem forall₂_and_right {α β : Type} {R : α → β → Prop} {P : β → Prop} :
+    ∀ {l1 : List α} {l2 : List β}, List.Forall₂ R l1 l2 → (∀ t ∈ l2, P t) → List.Forall₂ (fun c t => R c t ∧ P t) l1 l2
+  | _, _, List.Forall₂.nil, _ => List.Forall₂.nil
+  | _, _, List.Forall₂.cons h t, hp =>
+    List.Forall₂.cons ⟨h, hp _ (by simp)⟩ (forall₂_and_right t (fun x hx => hp x (by simp [hx])))
+
 end RelAlg
